@@ -121,6 +121,7 @@ impl Work {
             sim: SimSpec::calm(),
             heap_seed: 0,
             memo: None,
+            same_thread: false,
             steps: vec![],
         }
     }
